@@ -100,6 +100,7 @@ var Mutants = map[string][]Mutant{
 		{"Windings looks at the whole path only", "path.go", `\tfor _, pi := range p\.Split\(\) \{\n\t\tzs := pi\.RayIntersections\(x, y\)`, "\tfor _, pi := range []*Path{p} {\n\t\tzs := pi.RayIntersections(x, y)", "E9.subpaths"},
 	},
 	"C07": {
+		{"inverse divided by the absolute determinant", "util.go", `\tdet := m\.Det\(\)\n\tif Equal\(det, 0\.0\) \{\n\t\tpanic\("determinant of affine`, "\tdet := math.Abs(m.Det())\n\tif det <= Epsilon {\n\t\tpanic(\"determinant of affine", "E11.matrix-inverse"},
 		{"Decompose merges the rotations for every similarity", "util.go", `\tif Equal\(sx, 1\.0\) && Equal\(sy, 1\.0\) \{\n\t\ttheta \+= phi`, "\tif m.IsSimilarity() {\n\t\ttheta += phi", "E11.rotation-merge"},
 		{"Decompose merges the rotations when the magnitudes agree", "util.go", `\tif Equal\(sx, 1\.0\) && Equal\(sy, 1\.0\) \{\n\t\ttheta \+= phi`, "\tif Equal(math.Abs(sx), math.Abs(sy)) {\n\t\ttheta += phi", "E11.rotation-merge"},
 		{"sweep flip decided by the diagonal", "path.go", `_, _, _, xscale, yscale, _ := m\.Decompose\(\)`, `xscale, yscale := m[0][0], m[1][1]`, "E11.sweep-flip"},
@@ -116,6 +117,7 @@ var Mutants = map[string][]Mutant{
 		{"Rect.Add max reads the low field", "util.go", `x1 := math\.Max\(r\.X1, q\.X1\)`, `x1 := math.Max(r.X1, q.X0)`, "E3.mirror"},
 	},
 	"C09": {
+		{"circular arc length taken before the angles are ordered", "path_util.go", `func ellipseLength\(rx, ry, theta1, theta2 float64\) float64 \{\n`, "func ellipseLength(rx, ry, theta1, theta2 float64) float64 {\n\tif rx == ry {\n\t\treturn rx * (theta2 - theta1)\n\t}\n", "E11.normalise-first"},
 		{"Reverse skips segments that end where they start", "path.go", `(\t\t\tend = Point\{p\.d\[i-3\], p\.d\[i-2\]\}\n\t\t\}\n)(\n\t\tswitch cmd \{\n\t\tcase MoveToCmd:\n\t\t\tif closed \{)`, "${1}\t\tif cmd != MoveToCmd && cmd != CloseCmd && start.Equals(end) {\n\t\t\tcontinue\n\t\t}\n${2}", "E2.record-preserved"},
 		{"Reverse emits a cubic only when it is not degenerate", "path.go", `(\t\t\tcx2, cy2 := p\.d\[i\+3\], p\.d\[i\+4\]\n)(\t\t\tq\.d = append\(q\.d, CubeToCmd, cx2, cy2, cx1, cy1, end\.X, end\.Y, CubeToCmd\)\n)`, "${1}\t\t\tif !start.Equals(end) {\n\t${2}\t\t\t}\n", "E2.record-preserved"},
 		{"quadratic length takes the logarithm unguarded", "path_util.go", `\tif num <= 0\.0 \|\| den <= 0\.0 \{`, "\tif false {", "E4.log-domain"},
@@ -140,6 +142,7 @@ var Mutants = map[string][]Mutant{
 		{"Close retags one end only", "path.go", `\t\tp\.d\[len\(p\.d\)-1\] = CloseCmd\n\t\tp\.d\[len\(p\.d\)-cmdLen\(LineToCmd\)\] = CloseCmd\n`, "\t\tp.d[len(p.d)-1] = CloseCmd\n", "E2.retag"},
 	},
 	"C11": {
+		{"sub-path start remembered before the relative offset", "path.go", `(?s)(\tvar p0, p1) (Point\n\tprevCmd := byte\('z'\).*?\t\t\tp1 = Point\{f\[0\], f\[1\]\}\n)(\t\t\tif cmd == 'm' \{.*?)\t\t\tp1 = p\.StartPos\(\)\n`, "${1}, start ${2}\t\t\tstart = p1\n${3}\t\t\tp1 = start\n", "E11.relative-before-use"},
 		{"number table becomes a 128-entry array", "path.go", `cmdLens := map\[byte\]int\{`, "cmdLens := [128]int{", "E4.table-index"},
 		{"dec prints Precision decimals again", "util.go", `\ts := fmt\.Sprintf\("%\.\*f", decimals, f\)\n`, "\ts := fmt.Sprintf(\"%.*f\", Precision, f)\n\t_ = decimals\n", "E11.precision-unit"},
 		{"bad path data drawn anyway", "svg.go", `\t\t\tbreak // p is nil\n`, "", "E4.value-on-error"},
@@ -169,13 +172,14 @@ var Mutants = map[string][]Mutant{
 		{"PS eofill outside its guard", "renderers/ps/ps.go", `r\.w\.Write\(\[\]byte\(" fill"\)\)\n\t\t\}\n\t\tif style\.HasStroke\(\) && !strokeUnsupported \{\n\t\t\tr\.w\.Write\(\[\]byte\(" grestore"\)\)`, "r.w.Write([]byte(\" eofill\"))\n\t\t}\n\t\tif style.HasStroke() && !strokeUnsupported {\n\t\t\tr.w.Write([]byte(\" grestore\"))", "E6.enum"},
 	},
 	"C13": {
+		{"DCT images always declared DeviceRGB", "renderers/pdf/writer.go", `\t\tif _, ok := img\.\(\*image\.Gray\); ok \{\n\t\t\tcolorSpace = pdfName\("DeviceGray"\)[^\n]*\n\t\t\}\n`, "", "E5.jpeg-colorspace"},
 		{"parentheses escaped only when their counts differ", "renderers/pdf/writer.go", "(\\t\\tv = strings\\.Replace\\(v, `\\(`, [^\\n]*\\n\\t\\tv = strings\\.Replace\\(v, `\\)`, [^\\n]*\\n)", "\t\tif strings.Count(v, \"(\") != strings.Count(v, \")\") {\n${1}\t\t}\n", "E5.string-escape"},
 		{"PDF colour components divided by an untested alpha", "renderers/pdf/writer.go", `\tif c\.A == 0 \{\n\t\treturn 0\.0, 0\.0, 0\.0\n\t\}\n`, "", "E4.alpha-division"},
 		{"opacity names remembered for the whole document", "renderers/pdf/writer.go", `(func \(w \*pdfWriter\) NewPage\((?:.*\n)*?\t\tgraphicsStates: )map\[float64\]pdfName\{\},`, "var sharedGS = map[float64]pdfName{}\n\n${1}sharedGS,", "E5.page-memo"},
 		{"literal strings no longer escape CR", "renderers/pdf/writer.go", `\t\tv = strings\.Replace\(v, "\\r", .*\n`, "", "E5.string-escape"},
 		{"parentheses escaped before the backslash", "renderers/pdf/writer.go", "\\t\\tv = strings\\.Replace\\(v, `\\\\`, `\\\\\\\\`, -1\\)\\n(\\t\\tv = strings\\.Replace\\(v, `\\(`, .*\\n)", "$1\t\tv = strings.Replace(v, `\\`, `\\\\`, -1)\n", "E5.string-escape"},
 		{"soft mask declares the image's filter", "renderers/pdf/writer.go", `"Interpolate":      true,\n\t\t\t\t"Filter":           pdfFilterFlate,`, "\"Interpolate\":      true,\n\t\t\t\t\"Filter\":           filter,", "E5.stream-filter"},
-		{"lossy image bytes not encoded", "renderers/pdf/writer.go", `\t\tstream = buf\.Bytes\(\)\n\t\} else \{\n\t\tfilter = pdfFilterFlate`, "\t\tstream = make([]byte, buf.Len())\n\t} else {\n\t\tfilter = pdfFilterFlate", "E5.stream-filter"},
+		{"lossy image bytes not encoded", "renderers/pdf/writer.go", `\t\tstream = buf\.Bytes\(\)\n\t\tif _, ok := img`, "\t\tstream = make([]byte, buf.Len())\n\t\tif _, ok := img", "E5.stream-filter"},
 		{"stitching functions collected in a []pdfDict", "renderers/pdf/writer.go", `\tfs := pdfArray\{\}\n`, "\tfs := []interface{}{}\n\tvar _ = []pdfDict{}\n", "E5.value-types"},
 		{"font object slot reserved only for a new subsetter", "renderers/pdf/writer.go", `\tw\.objOffsets = append\(w\.objOffsets, 0\)\n\tref := pdfRef\(len\(w\.objOffsets\)\)\n\tfonts\[font\] = ref\n\tif _, ok := w\.fontSubset\[font\]; !ok \{\n`, "\tif _, ok := w.fontSubset[font]; !ok {\n\t\tw.objOffsets = append(w.objOffsets, 0)\n\t}\n\tref := pdfRef(len(w.objOffsets))\n\tfonts[font] = ref\n\tif _, ok := w.fontSubset[font]; !ok {\n", "E5.fresh-ref"},
 		{"Subject filled from title", "renderers/pdf/writer.go", `info\["Subject"\] = encode\(w\.subject\)`, `info["Subject"] = encode(w.title)`, "E5.metadata"},
@@ -218,6 +222,9 @@ var Mutants = map[string][]Mutant{
 		{"setter writes the stack", "canvas.go", `func \(c \*Context\) SetStrokeWidth\(width float64\) \{\n`, "func (c *Context) SetStrokeWidth(width float64) {\n\tc.stack = nil\n", "E11.ctx-setter"},
 	},
 	"C16": {
+		{"run index taken before the leading white space is skipped", "text.go", `(?s)(\t\teolSkip := 0 // number of glyphs after the last box\n)(.*?)\t\tk := glyphIndices\.index\(a\) // index into runs\n`, "${1}\t\tk := glyphIndices.index(ag)\n${2}", "E11.derived-before-update"},
+		{"Reset keeps the embedded objects", "text.go", `\trt\.objects = map\[uint32\]TextSpanObject\{\} // are keyed by their position in the text\n`, "", "E11.reset-complete"},
+		{"empty line's face looked up with the rune counter", "text.go", `runs\[glyphIndices\.index\(ag\)\]\.Face\.heights\(rt\.mode\)`, "runs[glyphIndices.index(i)].Face.heights(rt.mode)", "E11.glyph-index-domain"},
 		{"last line's gap taken from loop variables that may describe a dropped line", "text.go", `(?s)(\tlineSpacing := 1\.0 \+ lineStretch\n)(.*?)\t\tvar ascent, descent, bottom float64\n(.*?)\t\t_, _, descent, bottom := t\.lines\[len\(t\.lines\)-1\]\.Heights\(rt\.mode\)\n\t\ty \+= -bottom\*lineSpacing \+ descent\n`, "${1}\tvar ascent, descent, bottom float64\n${2}${3}\t\ty += -bottom + descent\n", "E11.stale-after-break"},
 		{"hyphen drawn at every flagged one-glyph penalty", "text.go", `items\[bi\]\.Size == 1 && glyphs\[bg\]\.Text == '\\u00AD' \{`, "items[bi].Flagged && items[bi].Size == 1 {", "E11.hyphen-guard"},
 		{"LinebreakGlyphs draws a hyphen at every flagged penalty", "text/linebreak.go", `if item\.Type == PenaltyType && item\.Flagged && item\.Width != 0\.0 \{`, "if item.Type == PenaltyType && item.Flagged {", "E11.hyphen-guard"},
